@@ -39,6 +39,7 @@ func Main(args []string) int {
 	list := fs.Bool("list", false, "list all obligations")
 	props := fs.Bool("props", false, "print the property ids that have checks")
 	manifest := fs.Bool("manifest", false, "print MANIFEST.json for the registered checks")
+	dump := fs.String("dumpssa", "", "debugging aid: print the SSA form of pkg:Func (e.g. server:Manager.Select) as this checker sees it")
 	if err := fs.Parse(args); err != nil {
 		return 2
 	}
@@ -87,6 +88,16 @@ func Main(args []string) int {
 			fmt.Printf("VIOLATION property=%s replay=%s\n", id, filepath.Join(*verif, "evidence", "replay", id+".json"))
 		}
 		return 1
+	}
+	if *dump != "" {
+		if parts := strings.SplitN(*dump, ":", 2); len(parts) == 2 {
+			if fn := p.Func(parts[0], parts[1]); fn != nil {
+				fn.WriteTo(os.Stdout)
+				return 0
+			}
+		}
+		fmt.Fprintln(os.Stderr, "no such function")
+		return 2
 	}
 	known, err := loadKnown(filepath.Join(*verif, "known_findings.json"))
 	if err != nil {
